@@ -70,7 +70,8 @@ PROPS["C18"] = {
 }
 
 PROPS["C15"] = {
-    "modules": ["TaffyVerif.Props.C15", "TaffyVerif.Props.C15Pass", "TaffyVerif.Props.C15Link", "TaffyVerif.Props.C02", "TaffyVerif.Props.C15Eval"],
+    "modules": ["TaffyVerif.Props.C15", "TaffyVerif.Props.C15Pass", "TaffyVerif.Props.C15Link", "TaffyVerif.Props.C02", "TaffyVerif.Props.C15Eval",
+                "TaffyVerif.Props.C15Refine"],
     "theorems": [
         "C15.facts", "Dirty.markDirty_spec", "C15.step_preserves_K", "C15.K_reachable", "C15.I_reachable",
         "C15.mutation_dirties_exactly", "C15.ancestors_dirty", "C15.already_dirty_noop",
@@ -90,6 +91,17 @@ PROPS["C15"] = {
         "Dirty.step_preserves_Struct", "C15Link.struct_reachable", "C15Link.subtree_finite", "C15Link.subtree_is_rose_tree",
         "C15Link.KT_unfold", "C15Link.pass_cleans_flat", "C15Link.pass_cleans_of_inv", "C15Link.passFlat_preserves",
         "C15Link.reach_inv", "DirtyPass.pass_skel", "C15Link.passFlat_exists", "C15Link.pass_total", "C15Link.reach_pass",
+        # the evaluator's real pass IS a resolution of the abstract pass (Props/C15Refine.lean, Lemmas/EvalDirty*.lean)
+        "C15Refine.realObs", "C15Refine.memoObs", "EvalDirty.runProg_ref", "EvalDirty.eval_ref",
+        "C15Refine.eval_refines_visit", "C15Refine.eval_refines_visit_flags", "C15Refine.eval_root_pass_refines",
+        "C15Refine.eval_pass_preserves_K", "C15Refine.eval_pass_cleans", "C15Refine.eval_passes_K", "C15Refine.KTns_init",
+        "EvalDirty.block_calm", "EvalDirty.flex_calm", "EvalDirty.grid_calm", "EvalDirty.gridCov_calm",
+        "C15Refine.block_Calm", "C15Refine.flex_Calm", "C15Refine.grid_Calm", "C15Refine.algs_Calm_all",
+        "C15Refine.algsCovG_Calm", "C15Refine.selHidden_real",
+        "C15Refine.eval_refines_visit_all_trees", "C15Refine.eval_root_pass_refines_all_trees",
+        "C15Refine.eval_pass_preserves_K_all_trees", "C15Refine.eval_pass_cleans_all_trees",
+        "C15Refine.eval_passes_K_all_trees", "C15Refine.ex3_pass_is_stream",
+        "C15Refine.old_recompute_rigid", "C15Refine.ex4_flags", "C15Refine.old_recompute_too_rigid",
     ],
     "harness": "C15", "driver": "C15", "monitor": False, "extra_ties": [("EVAL", "EVAL")], "extra_tie_cases": 4000,
     "rule": "random histories (4–33 ops) of every TaffyTree mutator (new_leaf[_with_context], set_style incl. display:none "
@@ -106,9 +118,13 @@ PROPS["C15"] = {
         "(preserved by every mutator under the property's precondition) the subtree of a parentless node is a finite rose tree, "
         "K gives KT on it, a pass can be written back (PassFlat exists) and preserves K and Struct, so pass_cleans applies after "
         "every history of mutators interleaved with passes (C15Link.reach_inv)",
-        "modelled assumption about the three container algorithms: a PerformLayout-mode evaluation performs a PerformLayout "
-        "query on every child, and display:none children are never measured (validated by the implementation-side oracle "
-        "`every node reachable without crossing display:none is clean after a pass`)",
+        "what the rose-tree pass assumes about the three container algorithms — a PerformLayout-mode evaluation performs a "
+        "PerformLayout query on every child, and display:none children are never measured — is PROVED of the block, flexbox and "
+        "grid programs (EvalMemo.PLCovers: block_PLCovers / flex_PLCovers / grid_PLCovers_partial on runs that do not panic; "
+        "C15Refine.block_Calm / flex_Calm / grid_Calm), and the evaluator's pass over the real cache model is proved to be one "
+        "of the resolutions of the rose-tree pass (C15Refine.eval_root_pass_refines_all_trees, every style tree whose grid "
+        "containers cannot panic: GridCalm); Model/DirtyPass.lean's recompute was made self-delimiting for this (a closing "
+        "`done`): with the former definition the statement is false (C15Refine.old_recompute_too_rigid)",
     ],
     "assumptions": ["mark_dirty's recursion is modelled with fuel (next+1); running out of fuel is an explicit outcome, "
                     "never observed; in a forest it cannot happen"],
@@ -117,9 +133,12 @@ PROPS["C15"] = {
                      "every Num instance under C02's self-compatibility of the root key, which is the exact condition: "
                      "C15Eval.second_pass_reevaluates_root). At f32 the condition fails for a NaN / infinite available space or a "
                      "NaN known dimension: AvailableSpace::Definite(f32::INFINITY) makes every pass call the root's measure "
-                     "function again (model #eval and real code agree; outside the property's finite inputs). What is not proved: "
-                     "the link between the dirty-flag models (Model/Dirty*.lean) and the evaluator's caches; it is checked on the "
-                     "implementation (oracle sig:c15-second-pass-measures)"],
+                     "function again (model #eval and real code agree; outside the property's finite inputs). The link between the "
+                     "rose-tree pass (Model/DirtyPass.lean) and the evaluator's caches is proved for passes "
+                     "(C15Refine.eval_pass_cleans_all_trees, eval_pass_preserves_K_all_trees, eval_passes_K_all_trees: any sequence "
+                     "of root passes from a freshly built tree); what is not proved: the same link for the MUTATORS (the flat "
+                     "model's mark_dirty against clearing the evaluator's caches along the ancestor chain; EvalMemo.Edit models "
+                     "the edits on the evaluator side), and grid containers that panic (GridCalm excludes them)"],
     "level_text": "Theorems: every mutator (with the mark_dirty call extracted from the source) preserves the invariant K, which "
                   "implies that a dirty node's parent is dirty or display:none — the fact that makes mark_dirty's early exit "
                   "sound — for every history; mark_dirty dirties the target and all ancestors up to the first display:none one, "
@@ -829,7 +848,7 @@ _PAIRS_TRUSTED = [
 ]
 
 PROPS["C01"] = {
-    "modules": C01_EVAL_MODULES + EVALBLOCK_MODULES + EVALFLEX_MODULES + EVALGRID_MODULES + ["TaffyVerif.Props.C15", "TaffyVerif.Props.C15Pass"], "theorems": C01_EVAL_THEOREMS + EVALBLOCK_C01 + EVALFLEX_C01 + EVALGRID_C01 + ["C15.step_preserves_K", "C15.I_reachable", "C15Pass.pass_cleans"],  # PLACEHOLDER — C01's theorems (stamp_valid, transparency under HitAfterQuiet, …) to be added
+    "modules": C01_EVAL_MODULES + EVALBLOCK_MODULES + EVALFLEX_MODULES + EVALGRID_MODULES + ["TaffyVerif.Props.C15", "TaffyVerif.Props.C15Pass", "TaffyVerif.Props.C15Refine"], "theorems": C01_EVAL_THEOREMS + EVALBLOCK_C01 + EVALFLEX_C01 + EVALGRID_C01 + ["C15.step_preserves_K", "C15.I_reachable", "C15Pass.pass_cleans", "C15Refine.eval_pass_preserves_K_all_trees", "C15Refine.eval_pass_cleans_all_trees"],  # PLACEHOLDER — C01's theorems (stamp_valid, transparency under HitAfterQuiet, …) to be added
     "harness": "C01", "driver": "C01", "monitor": False, "extra_ties": [("EVAL", "EVAL"), ("FLEX", "FLEX"), ("GRID", "GRID")], "extra_tie_cases": 4000, "harness_timeout": 900,
     "rule": "random histories (5-25 ops) on ONE long-lived TaffyTree<Ctx> next to a mirror description: set_style (fresh / identical / "
             "display:none toggle), set_node_context, add_child / insert_child_at_index / replace_child_at_index with a newly generated or a "
